@@ -222,6 +222,28 @@ func (c *Ctx) accumulatorWidth(f *ssa.Function) {
 				return
 			}
 		}
+		// exactness: the guard on the count refuses exactly the counts that do not fit
+		// (count > 64/s, or count >= 64/s + 1); a stricter one refuses numbers that do fit
+		for _, ft := range factsAt(f, hdr) {
+			g, ok := ft.Cond.(*ssa.BinOp)
+			if !ok || ft.Truth {
+				continue // the refusing edge is the true edge; here we are on the accepting side
+			}
+			k, isK := constInt(g.Y)
+			if !isK || !derivesFrom(cmp.Y, func(v ssa.Value) bool { return v == g.X }, false) {
+				continue
+			}
+			var maxOK int64 = -1
+			switch g.Op {
+			case token.GTR:
+				maxOK = k
+			case token.GEQ:
+				maxOK = k - 1
+			}
+			if maxOK >= 0 && okB {
+				c.check(maxOK*s == 64, R, key+" refuses only what does not fit", g.Pos(), fmt.Sprintf("counts up to %d accepted, %d bits each", maxOK, s), fmt.Sprintf("%s refuses every count above %d although %d pieces of %d bits fit a uint64: numbers that need all 64 bits are rejected as overflow", fnName(f), maxOK, 64/s, s))
+			}
+		}
 		c.check(okB, R, key+" fits 64 bits", sh.Pos(), fmt.Sprintf("trip count * %d <= 64 proved from the guard on the count", s), fmt.Sprintf("%s accumulates %s pieces of %d bits into a uint64 without the count being known to be at most %d: a longer number loses its high part silently instead of being refused", fnName(f), shape(cmp.Y, 3), s, 64/s))
 	})
 }
